@@ -102,35 +102,89 @@ func runC10(r *Run) {
 }
 
 // ---------------------------------------------------------------------------------------------
-// R1: last-writer simulation of the pod under construction
+// R1: last-writer simulation of the pod under construction, through repository helpers
 
 var c10Unknown ssa.Value = ssa.NewConst(constant.MakeString("<unknown>"), types.Typ[types.String])
+
+type c10FFact struct {
+	f  Fact
+	fr *frame
+}
+
+type c10RetKey struct {
+	call *ssa.Call
+	fr   *frame
+}
+
+type c10LoadKey struct {
+	v  ssa.Value
+	fr *frame
+}
 
 type c10State struct {
 	c        *c10Ctx
 	T        ssa.Value
 	P        *ssa.Alloc
-	t, p     map[string]ssa.Value
+	t, p     map[string]fval
 	dyn      map[string]bool // maps updated with a non-constant key (applies to both)
 	copied   map[string]bool
 	pOwn     map[string]bool // fields of P stored directly after the copy (alias with T broken)
 	ownerRef int             // 0 none, 1 correct, 2 wrong arguments
 	undec    string
 	clock    int
-	storeAt  map[string]int    // field path -> time of the last direct store on this path
-	loadAt   map[ssa.Value]int // load instruction -> time
+	storeAt  map[string]int     // field path -> time of the last direct store on this path
+	loadAt   map[c10LoadKey]int // load instruction -> time
+	facts    []c10FFact         // path facts of the constructor and of the inlined helpers
+	rets     map[c10RetKey][]fval
+	lastRet  []fval
+}
+
+func (s *c10State) clone() *c10State {
+	n := *s
+	n.t, n.p = map[string]fval{}, map[string]fval{}
+	for k, v := range s.t {
+		n.t[k] = v
+	}
+	for k, v := range s.p {
+		n.p[k] = v
+	}
+	cp := func(m map[string]bool) map[string]bool {
+		o := map[string]bool{}
+		for k, v := range m {
+			o[k] = v
+		}
+		return o
+	}
+	n.dyn, n.copied, n.pOwn = cp(s.dyn), cp(s.copied), cp(s.pOwn)
+	n.storeAt = map[string]int{}
+	for k, v := range s.storeAt {
+		n.storeAt[k] = v
+	}
+	n.loadAt = map[c10LoadKey]int{}
+	for k, v := range s.loadAt {
+		n.loadAt[k] = v
+	}
+	n.facts = append([]c10FFact{}, s.facts...)
+	n.rets = map[c10RetKey][]fval{}
+	for k, v := range s.rets {
+		n.rets[k] = v
+	}
+	n.lastRet = nil
+	return &n
 }
 
 func pkey(p []string) string { return strings.Join(p, ".") }
 
-func (s *c10State) setField(m map[string]ssa.Value, path []string, val ssa.Value, nilInit bool) {
+var c10UnknownF = fval{v: c10Unknown}
+
+func (s *c10State) setField(m map[string]fval, path []string, val fval, nilInit bool) {
 	k := pkey(path)
 	for e := range m {
 		if !nilInit && (strings.HasPrefix(e, k+".") || strings.HasPrefix(e, k+"{")) {
 			delete(m, e)
 		}
 		if strings.HasPrefix(k, e+".") { // write below an existing entry: its pointee changes
-			m[e] = c10Unknown
+			m[e] = c10UnknownF
 		}
 	}
 	if !nilInit {
@@ -139,20 +193,24 @@ func (s *c10State) setField(m map[string]ssa.Value, path []string, val ssa.Value
 	s.storeAt[k] = s.clock
 }
 
-func (s *c10State) setEntry(m map[string]ssa.Value, path []string, key string, val ssa.Value) {
+func (s *c10State) setEntry(m map[string]fval, path []string, key string, val fval) {
 	m[pkey(path)+"{"+key+"}"] = val
 }
 
-func (s *c10State) get(path ...string) ssa.Value { return s.p[pkey(path)] }
+func (s *c10State) get(path ...string) (fval, bool) {
+	v, ok := s.p[pkey(path)]
+	return v, ok
+}
 
-func (s *c10State) entry(key string, path ...string) ssa.Value {
+// entry: 0 unset, 1 set (value returned), 2 unknown
+func (s *c10State) entry(key string, path ...string) (fval, bool) {
 	if v, ok := s.p[pkey(path)+"{"+key+"}"]; ok {
-		return v
+		return v, true
 	}
 	if s.dyn[pkey(path)] {
-		return c10Unknown
+		return c10UnknownF, true
 	}
-	return nil
+	return fval{}, false
 }
 
 func (s *c10State) aliased(path []string) bool {
@@ -164,25 +222,93 @@ func (s *c10State) aliased(path []string) bool {
 	return true
 }
 
-func (s *c10State) step(in ssa.Instruction) {
-	prog := s.c.r.Prog
+// c10Sim walks the constructor and, recursively, the loop-free repository helpers that receive a
+// pointer into the pod under construction.
+type c10Sim struct {
+	c   *c10Ctx
+	F   *frames
+	top *frame
+}
+
+func (m *c10Sim) use(s *c10State) {
+	m.F.rets = func(call *ssa.Call, fr *frame) ([]fval, bool) {
+		v, ok := s.rets[c10RetKey{call, fr}]
+		return v, ok
+	}
+}
+
+// root of an address/value: (is template, is pod, path)
+func (m *c10Sim) where(s *c10State, v ssa.Value, fr *frame) (isT, isP bool, path []string) {
+	m.use(s)
+	r, p := m.F.loc(fval{v, fr})
+	if r.fr != m.top && r.fr != nil {
+		// a value of an inlined helper frame that is not rooted at a parameter
+		return false, false, p
+	}
+	return r.v == s.T, r.v == ssa.Value(s.P), p
+}
+
+func (m *c10Sim) run(fn *ssa.Function, fr *frame, st *c10State, depth int) []*c10State {
+	paths, _, ok := funcPaths(fn, 2000)
+	m.c.r.paths += len(paths)
+	if !ok {
+		st.undec = "path cap exceeded in " + shortFunc(fn)
+		return []*c10State{st}
+	}
+	var out []*c10State
+	for _, p := range paths {
+		s0 := st.clone()
+		for _, f := range p.Facts {
+			s0.facts = append(s0.facts, c10FFact{f, fr})
+		}
+		states := []*c10State{s0}
+		for _, b := range p.Blocks {
+			for _, in := range b.Instrs {
+				var nx []*c10State
+				for _, s := range states {
+					s.clock++
+					nx = append(nx, m.step(s, in, fr, p, depth)...)
+				}
+				states = nx
+				if len(states) > 4000 {
+					states[0].undec = "too many combined paths through the constructor and its helpers"
+					return states[:1]
+				}
+			}
+		}
+		ret := returnOf(p.Blocks[len(p.Blocks)-1])
+		for _, s := range states {
+			s.lastRet = nil
+			for _, res := range ret.Results {
+				s.lastRet = append(s.lastRet, fval{p.Resolve(res), fr})
+			}
+		}
+		out = append(out, states...)
+	}
+	return out
+}
+
+func (m *c10Sim) step(s *c10State, in ssa.Instruction, fr *frame, p *Path, depth int) []*c10State {
+	prog := m.c.r.Prog
+	one := []*c10State{s}
 	switch x := in.(type) {
 	case *ssa.UnOp:
 		if x.Op == token.MUL {
-			s.loadAt[x] = s.clock
+			s.loadAt[c10LoadKey{x, fr}] = s.clock
 		}
 	case *ssa.Store:
-		root, p := deepPath(x.Addr)
-		if len(p) == 0 {
-			return
+		isT, isP, path := m.where(s, x.Addr, fr)
+		if len(path) == 0 || (!isT && !isP) {
+			return one
 		}
+		val := fval{p.Resolve(x.Val), fr}
 		switch {
-		case root == ssa.Value(s.P):
+		case isP:
 			// whole-struct copy from the template?
-			if len(p) == 1 {
-				if u, ok := x.Val.(*ssa.UnOp); ok && u.Op == token.MUL {
-					if fa, ok := u.X.(*ssa.FieldAddr); ok && fieldName(fa) == p[0] && fa.X == s.T {
-						pre := p[0]
+			if len(path) == 1 {
+				if u, ok := val.v.(*ssa.UnOp); ok && u.Op == token.MUL {
+					if srcT, _, sp := m.where(s, u.X, fr); srcT && len(sp) == 1 && sp[0] == path[0] {
+						pre := path[0]
 						for e := range s.p {
 							if e == pre || strings.HasPrefix(e, pre+".") || strings.HasPrefix(e, pre+"{") {
 								delete(s.p, e)
@@ -194,50 +320,50 @@ func (s *c10State) step(in ssa.Instruction) {
 							}
 						}
 						s.copied[pre] = true
-						return
+						return one
 					}
 				}
 			}
-			s.setField(s.p, p, x.Val, false)
-			if s.copied[p[0]] {
-				s.pOwn[pkey(p)] = true
+			s.setField(s.p, path, val, false)
+			if s.copied[path[0]] {
+				s.pOwn[pkey(path)] = true
 			}
-		case root == s.T:
-			nilInit := false
-			s.setField(s.t, p, x.Val, nilInit)
+		case isT:
+			s.setField(s.t, path, val, false)
 			shared := false
-			for _, f := range p {
+			for _, f := range path {
 				if f == "[]" {
 					shared = true
 				}
 			}
-			if shared && s.copied[p[0]] && s.aliased(p) {
-				s.setField(s.p, p, x.Val, false)
+			if shared && s.copied[path[0]] && s.aliased(path) {
+				s.setField(s.p, path, val, false)
 			}
 		}
 	case *ssa.MapUpdate:
-		root, p := deepPath(x.Map)
-		if root != ssa.Value(s.P) && root != s.T {
-			return
+		isT, isP, path := m.where(s, x.Map, fr)
+		if (!isT && !isP) || len(path) == 0 {
+			return one
 		}
-		if t, ok := s.loadAt[x.Map]; ok && t < s.storeAt[pkey(p)] {
-			return // the map was loaded before its field was reassigned: the update goes to the old map
+		if t, ok := s.loadAt[c10LoadKey{x.Map, fr}]; ok && t < s.storeAt[pkey(path)] {
+			return one // the map was loaded before its field was reassigned: the update goes to the old map
 		}
-		toP := root == ssa.Value(s.P) || (s.copied[p[0]] && s.aliased(p))
+		toP := isP || (s.copied[path[0]] && s.aliased(path))
 		if key, ok := constString(x.Key); ok {
-			if root == s.T || !s.copied[p[0]] || s.aliased(p) {
-				s.setEntry(s.t, p, key, x.Value)
+			val := fval{p.Resolve(x.Value), fr}
+			if isT || !s.copied[path[0]] || s.aliased(path) {
+				s.setEntry(s.t, path, key, val)
 			}
 			if toP {
-				s.setEntry(s.p, p, key, x.Value)
+				s.setEntry(s.p, path, key, val)
 			}
-			return
+			return one
 		}
-		s.dyn[pkey(p)] = true
-		for _, m := range []map[string]ssa.Value{s.t, s.p} {
-			for e := range m {
-				if strings.HasPrefix(e, pkey(p)+"{") {
-					m[e] = c10Unknown
+		s.dyn[pkey(path)] = true
+		for _, mm := range []map[string]fval{s.t, s.p} {
+			for e := range mm {
+				if strings.HasPrefix(e, pkey(path)+"{") {
+					mm[e] = c10UnknownF
 				}
 			}
 		}
@@ -245,88 +371,113 @@ func (s *c10State) step(in ssa.Instruction) {
 		cc := x.Common()
 		name := calleeName(cc)
 		if (name == "builtin:delete" || name == "builtin:clear") && len(cc.Args) >= 1 {
-			root, p := deepPath(cc.Args[0])
-			if root == ssa.Value(s.P) || root == s.T {
+			isT, isP, path := m.where(s, cc.Args[0], fr)
+			if isT || isP {
 				key, isC := "", false
 				if len(cc.Args) == 2 {
 					key, isC = constString(cc.Args[1])
 				}
-				for _, m := range []map[string]ssa.Value{s.t, s.p} {
+				for _, mm := range []map[string]fval{s.t, s.p} {
 					if isC {
-						s.setEntry(m, p, key, c10Unknown)
+						s.setEntry(mm, path, key, c10UnknownF)
 						continue
 					}
-					s.dyn[pkey(p)] = true
-					for e := range m {
-						if strings.HasPrefix(e, pkey(p)+"{") {
-							m[e] = c10Unknown
+					s.dyn[pkey(path)] = true
+					for e := range mm {
+						if strings.HasPrefix(e, pkey(path)+"{") {
+							mm[e] = c10UnknownF
 						}
 					}
 				}
 			}
-			return
+			return one
 		}
 		if knownReader(name) {
-			return
+			return one
 		}
+		type targ struct {
+			ai       int
+			isT, isP bool
+			path     []string
+		}
+		var targs []targ
 		for ai, a := range cc.Args {
-			root, p := deepPath(a)
-			if root != ssa.Value(s.P) && root != s.T {
-				continue
-			}
 			if _, isPtr := a.Type().Underlying().(*types.Pointer); !isPtr {
 				if _, isIface := a.Type().Underlying().(*types.Interface); !isIface {
 					continue
 				}
 			}
-			which := s.t
-			other := s.p
-			if root == ssa.Value(s.P) {
-				which, other = s.p, nil
+			isT, isP, path := m.where(s, a, fr)
+			if isT || isP {
+				targs = append(targs, targ{ai, isT, isP, path})
 			}
-			if strings.HasSuffix(name, "controllerutil.SetControllerReference") && len(cc.Args) >= 3 {
-				if ai == 1 && root == ssa.Value(s.P) && len(p) == 0 {
-					if unwrap(cc.Args[0]) == ssa.Value(s.c.rs) && cc.Args[2] == ssa.Value(s.c.scheme) {
+		}
+		if len(targs) == 0 {
+			return one
+		}
+		if strings.HasSuffix(name, "controllerutil.SetControllerReference") && len(cc.Args) >= 3 {
+			for _, ta := range targs {
+				if ta.ai == 1 && ta.isP && len(ta.path) == 0 {
+					m.use(s)
+					owner := m.F.resolve(fval{unwrap(cc.Args[0]), fr})
+					sch := m.F.resolve(fval{cc.Args[2], fr})
+					if owner.v == ssa.Value(m.c.rs) && sch.v == ssa.Value(m.c.scheme) {
 						s.ownerRef = 1
 					} else {
 						s.ownerRef = 2
 					}
-					s.setField(s.p, []string{"ObjectMeta", "OwnerReferences"}, c10Unknown, false)
+					s.setField(s.p, []string{"ObjectMeta", "OwnerReferences"}, c10UnknownF, false)
 				}
-				continue
 			}
-			cal := staticCallee(cc)
-			if cal == nil || !prog.IsRuleSite(cal) || cc.IsInvoke() {
-				s.undec = "the object under construction is passed to " + name
-				continue
+			return one
+		}
+		m.use(s)
+		cal, fr2 := m.F.callFrame(x, fr)
+		if cal == nil || !prog.IsRuleSite(cal) || cc.IsInvoke() {
+			s.undec = "the object under construction is passed to " + name
+			return one
+		}
+		call, isCall := x.(*ssa.Call)
+		if isCall && !hasLoop(cal) && depth < 3 {
+			// inline the helper: one successor state per path of the helper
+			subs := m.run(cal, fr2, s, depth+1)
+			for _, sub := range subs {
+				sub.rets[c10RetKey{call, fr}] = sub.lastRet
 			}
-			for _, w := range paramWrites(prog, cal, ai, 0) {
-				full := append(append([]string{}, p...), w.path...)
-				apply := func(m map[string]ssa.Value) {
-					if m == nil {
+			return subs
+		}
+		for _, ta := range targs {
+			which, other := s.t, s.p
+			if ta.isP {
+				which, other = s.p, nil
+			}
+			for _, w := range paramWrites(prog, cal, ta.ai, 0) {
+				full := append(append([]string{}, ta.path...), w.path...)
+				apply := func(mm map[string]fval) {
+					if mm == nil {
 						return
 					}
 					switch {
 					case w.all:
 						if len(full) == 0 {
-							for e := range m {
-								m[e] = c10Unknown
+							for e := range mm {
+								mm[e] = c10UnknownF
 							}
 							s.undec = shortFunc(cal) + " passes the object to an unknown callee"
 						} else {
-							s.setField(m, full, c10Unknown, false)
+							s.setField(mm, full, c10UnknownF, false)
 						}
 					case w.isMap && w.dynKey:
 						s.dyn[pkey(full)] = true
-						for e := range m {
+						for e := range mm {
 							if strings.HasPrefix(e, pkey(full)+"{") {
-								m[e] = c10Unknown
+								mm[e] = c10UnknownF
 							}
 						}
 					case w.isMap:
-						s.setEntry(m, full, w.mapKey, c10Unknown)
+						s.setEntry(mm, full, w.mapKey, c10UnknownF)
 					default:
-						s.setField(m, full, c10Unknown, w.nilInit)
+						s.setField(mm, full, c10UnknownF, w.nilInit)
 					}
 				}
 				apply(which)
@@ -344,6 +495,105 @@ func (s *c10State) step(in ssa.Instruction) {
 			}
 		}
 	}
+	return one
+}
+
+// ---- frame-aware matchers
+
+func (m *c10Sim) isTopObj(r fval, obj ssa.Value) bool {
+	return r.v == obj && (r.fr == m.top || r.fr == nil)
+}
+
+// fieldOf: x is (a load of) obj.<path> (ObjectMeta elements ignored).
+func (m *c10Sim) fieldOf(s *c10State, x fval, obj ssa.Value, want ...string) bool {
+	m.use(s)
+	x = m.F.resolve(x)
+	if _, isPtr := x.v.Type().Underlying().(*types.Pointer); isPtr {
+		return false // an address, not the value
+	}
+	r, p := m.F.loc(x)
+	return m.isTopObj(r, obj) && samePath(stripMeta(p), want)
+}
+
+func (m *c10Sim) getterOf(s *c10State, x fval, obj ssa.Value, suffix string) bool {
+	m.use(s)
+	x = m.F.resolve(x)
+	call, ok := unwrap(x.v).(*ssa.Call)
+	if !ok || !strings.HasSuffix(calleeName(&call.Call), suffix) {
+		return false
+	}
+	var recv ssa.Value
+	if call.Call.IsInvoke() {
+		recv = call.Call.Value
+	} else if len(call.Call.Args) == 1 {
+		recv = call.Call.Args[0]
+	}
+	if recv == nil {
+		return false
+	}
+	r, p := m.F.loc(fval{recv, x.fr})
+	return m.isTopObj(r, obj) && len(stripMeta(p)) == 0
+}
+
+func (m *c10Sim) nameOf(s *c10State, x fval, obj ssa.Value) bool {
+	return m.fieldOf(s, x, obj, "Name") || m.getterOf(s, x, obj, ".GetName")
+}
+
+func (m *c10Sim) namespaceOf(s *c10State, x fval, obj ssa.Value) bool {
+	return m.fieldOf(s, x, obj, "Namespace") || m.getterOf(s, x, obj, ".GetNamespace")
+}
+
+func (m *c10Sim) annotationsOf(s *c10State, x fval, obj ssa.Value) bool {
+	return m.fieldOf(s, x, obj, "Annotations") || m.getterOf(s, x, obj, ".GetAnnotations")
+}
+
+// edsName: x is replicaset.Labels[<extendeddaemonset name key>] (also when a helper returned it).
+func (m *c10Sim) edsName(s *c10State, x fval) bool {
+	m.use(s)
+	m.F.enterCalls = true
+	x = m.F.resolve(x)
+	m.F.enterCalls = false
+	v := x.v
+	if ex, ok := v.(*ssa.Extract); ok && ex.Index == 0 {
+		v = ex.Tuple
+	}
+	l, ok := v.(*ssa.Lookup)
+	if !ok {
+		return false
+	}
+	if k, isC := constString(l.Index); !isC || k != m.c.edsKey {
+		return false
+	}
+	return m.fieldOf(s, fval{l.X, x.fr}, m.c.rs, "Labels") || m.getterOf(s, fval{l.X, x.fr}, m.c.rs, ".GetLabels")
+}
+
+func c10IsStdTolerations(v ssa.Value) bool {
+	u, isL := v.(*ssa.UnOp)
+	if !isL || u.Op != token.MUL {
+		return false
+	}
+	g, isG := u.X.(*ssa.Global)
+	return isG && g.Pkg.Pkg.Path() == pkgPodUtils && g.Name() == "StandardDaemonSetTolerations"
+}
+
+func c10FactsString(s *c10State) string {
+	var out []string
+	seen := map[string]bool{}
+	for _, f := range s.facts {
+		k := strings.ReplaceAll(f.f.Key, repoMod+"/", "")
+		if len(k) > 48 {
+			k = k[:48] + "…"
+		}
+		if !f.f.Pol {
+			k = "¬" + k
+		}
+		if !seen[k] {
+			seen[k] = true
+			out = append(out, k)
+		}
+	}
+	sort.Strings(out)
+	return strings.Join(out, " ∧ ")
 }
 
 // findObjects locates the returned pod literals and, for each, the template copy it is filled from.
@@ -411,13 +661,9 @@ func (c *c10Ctx) constructor() {
 			r.Undecided("C10.R1", it, pos, sf, why)
 		}
 	}
-	for _, b := range fn.Blocks {
-		for _, s := range b.Succs {
-			if s.Dominates(b) {
-				allUndecided("the constructor contains a loop; the last-writer simulation handles straight-line and branching code only")
-				return
-			}
-		}
+	if hasLoop(fn) {
+		allUndecided("the constructor contains a loop; the last-writer simulation handles straight-line and branching code only")
+		return
 	}
 	pods, why := c.findObjects()
 	if pods == nil {
@@ -440,13 +686,6 @@ func (c *c10Ctx) constructor() {
 	}
 	r.Check("C10.R1", "template source", pos, sf, "the pod is filled from a DeepCopy of replicaset.Spec.Template (the constructor mutates the copy)", okSrc, whySrc)
 
-	paths, _, ok := funcPaths(fn, 5000)
-	r.paths += len(paths)
-	if !ok {
-		allUndecided("path cap exceeded")
-		return
-	}
-	isRS, isNode := isParam(c.rs), isParam(c.node)
 	hashFn := r.Prog.Func(pkgComparison, "GenerateHashFromEDSResourceNodeAnnotation")
 	type res struct {
 		ok      bool
@@ -457,164 +696,192 @@ func (c *c10Ctx) constructor() {
 	for _, it := range items[1:] {
 		results[it] = &res{ok: true}
 	}
-	fail := func(it string, p *Path, why string) {
+	fail := func(it string, s *c10State, why string) {
 		if results[it].ok {
 			results[it].ok = false
-			results[it].why = why + " on path [" + shortFacts(p) + "]"
+			results[it].why = why + " on path [" + c10FactsString(s) + "]"
 		}
 	}
-	describe := func(v ssa.Value) string {
+	describe := func(v fval, set bool) string {
 		switch {
-		case v == nil:
+		case !set:
 			return "never stored"
-		case v == c10Unknown:
+		case v.v == c10Unknown:
 			return "overwritten by an unknown or callee write"
 		}
-		return v.String()
+		return v.v.String()
 	}
-	isEDSName := func(v ssa.Value) bool {
-		if ex, ok := v.(*ssa.Extract); ok && ex.Index == 0 {
-			v = ex.Tuple
+	F := newFrames(r.Prog)
+	sim := &c10Sim{c: c, F: F, top: F.top(fn)}
+	// the simulation starts once per returned pod literal (a path that returns another literal is dropped below)
+	var finals []*c10State
+	for P, T := range pods {
+		st := &c10State{c: c, T: T, P: P, t: map[string]fval{}, p: map[string]fval{}, dyn: map[string]bool{}, copied: map[string]bool{}, pOwn: map[string]bool{},
+			storeAt: map[string]int{}, loadAt: map[c10LoadKey]int{}, rets: map[c10RetKey][]fval{}}
+		for _, s := range sim.run(fn, sim.top, st, 0) {
+			if len(s.lastRet) > 0 && s.lastRet[0].v == ssa.Value(P) {
+				finals = append(finals, s)
+			} else if a, isA := s.lastRet[0].v.(*ssa.Alloc); !isA || pods[a] == nil {
+				for _, it := range items[1:] {
+					fail(it, s, "undecided: the value returned on this path is not one of the locally built pods")
+				}
+			}
 		}
-		l, ok := v.(*ssa.Lookup)
+	}
+	isNilOf := func(s *c10State, f c10FFact, obj ssa.Value) bool {
+		x, y, ok := eqOperands(f.f.V)
 		if !ok {
 			return false
 		}
-		s, isC := constString(l.Index)
-		root, p := accessPath(l.X)
-		return isC && s == c.edsKey && root == ssa.Value(c.rs) && len(p) > 0 && p[len(p)-1] == "Labels"
+		var other ssa.Value
+		if isNilConst(y) {
+			other = x
+		} else if isNilConst(x) {
+			other = y
+		}
+		if other == nil {
+			return false
+		}
+		sim.use(s)
+		return sim.isTopObj(F.resolve(fval{other, f.fr}), obj)
 	}
-	for _, p := range paths {
-		ret := returnOf(p.Blocks[len(p.Blocks)-1])
-		P, isA := p.Resolve(ret.Results[0]).(*ssa.Alloc)
-		if !isA || pods[P] == nil {
+	for _, s := range finals {
+		if s.undec != "" {
 			for _, it := range items[1:] {
-				fail(it, p, "undecided: the value returned on this path is not one of the locally built pods")
+				fail(it, s, "undecided: "+s.undec)
 			}
 			continue
 		}
-		st := &c10State{c: c, T: pods[P], P: P, t: map[string]ssa.Value{}, p: map[string]ssa.Value{}, dyn: map[string]bool{}, copied: map[string]bool{}, pOwn: map[string]bool{},
-			storeAt: map[string]int{}, loadAt: map[ssa.Value]int{}}
-		for _, b := range p.Blocks {
-			for _, in := range b.Instrs {
-				st.clock++
-				st.step(in)
-			}
-		}
-		if st.undec != "" {
+		if !s.copied["ObjectMeta"] || !s.copied["Spec"] {
 			for _, it := range items[1:] {
-				fail(it, p, "undecided: "+st.undec)
+				fail(it, s, "the pod's ObjectMeta/Spec are not copied from the template")
 			}
 			continue
 		}
-		if !st.copied["ObjectMeta"] || !st.copied["Spec"] {
-			for _, it := range items[1:] {
-				fail(it, p, "the pod's ObjectMeta/Spec are not copied from the template")
+		nodeNil, schemeSet := false, false
+		for _, f := range s.facts {
+			if f.f.Pol && isNilOf(s, f, c.node) {
+				nodeNil = true
 			}
-			continue
+			if !f.f.Pol && isNilOf(s, f, c.scheme) {
+				schemeSet = true
+			}
 		}
-		nodeNil := p.Has(true, func(v ssa.Value, _ string) bool { return isNilCompareOf(v, isNode) })
-		schemeSet := p.Has(false, func(v ssa.Value, _ string) bool { return isNilCompareOf(v, isParam(c.scheme)) })
-
-		if v := st.get("ObjectMeta", "Namespace"); v == nil || v == c10Unknown || !namespaceOf(isRS)(v) {
-			fail("namespace", p, "pod namespace is "+describe(v))
+		if v, set := s.get("ObjectMeta", "Namespace"); !set || !sim.namespaceOf(s, v, c.rs) {
+			fail("namespace", s, "pod namespace is "+describe(v, set))
 		}
-		if v := st.entry(c.ersKey, "ObjectMeta", "Labels"); v == nil || v == c10Unknown || !nameOf(isRS)(v) {
-			fail("label replica-set name", p, "label "+c.ersKey+" is "+describe(v))
+		if v, set := s.entry(c.ersKey, "ObjectMeta", "Labels"); !set || !sim.nameOf(s, v, c.rs) {
+			fail("label replica-set name", s, "label "+c.ersKey+" is "+describe(v, set))
 		}
-		if v := st.entry(c.edsKey, "ObjectMeta", "Labels"); v == nil || v == c10Unknown || !isEDSName(v) {
-			fail("label extendeddaemonset name", p, "label "+c.edsKey+" is "+describe(v))
+		if v, set := s.entry(c.edsKey, "ObjectMeta", "Labels"); !set || !sim.edsName(s, v) {
+			fail("label extendeddaemonset name", s, "label "+c.edsKey+" is "+describe(v, set))
 		}
-		if v := st.entry(c.md5Key, "ObjectMeta", "Annotations"); v == nil || v == c10Unknown || !loadOfPath(isRS, "Spec", "TemplateGeneration")(v) {
-			fail("annotation template hash", p, "annotation "+c.md5Key+" is "+describe(v))
+		if v, set := s.entry(c.md5Key, "ObjectMeta", "Annotations"); !set || !sim.fieldOf(s, v, c.rs, "Spec", "TemplateGeneration") {
+			fail("annotation template hash", s, "annotation "+c.md5Key+" is "+describe(v, set))
 		}
 		tolOK := false
-		tv := st.get("Spec", "Tolerations")
-		isStd := func(v ssa.Value) bool {
-			u, isL := v.(*ssa.UnOp)
-			if !isL || u.Op != token.MUL {
-				return false
+		tv, tset := s.get("Spec", "Tolerations")
+		if tset {
+			if ap, ok := isBuiltinCallV(tv.v, "append"); ok && len(ap.Call.Args) == 2 && (c10IsStdTolerations(ap.Call.Args[1]) || c10IsStdTolerations(ap.Call.Args[0])) {
+				tolOK = true
+			} else if c10IsStdTolerations(tv.v) {
+				tolOK = true
 			}
-			g, isG := u.X.(*ssa.Global)
-			return isG && g.Pkg.Pkg.Path() == pkgPodUtils && g.Name() == "StandardDaemonSetTolerations"
-		}
-		if ap, ok := isBuiltinCallV(tv, "append"); ok && len(ap.Call.Args) == 2 && (isStd(ap.Call.Args[1]) || isStd(ap.Call.Args[0])) {
-			tolOK = true
-		} else if tv != nil && isStd(tv) {
-			tolOK = true
 		}
 		if !tolOK {
-			fail("tolerations", p, "Spec.Tolerations is "+describe(tv))
+			fail("tolerations", s, "Spec.Tolerations is "+describe(tv, tset))
 		}
-		// node pin
 		if !nodeNil {
 			results["node pin"].nonTriv = true
-			nn, af := st.get("Spec", "NodeName"), st.get("Spec", "Affinity")
-			pinOK := nn != nil && nn != c10Unknown && nameOf(isNode)(nn)
-			if !pinOK && af != nil && af != c10Unknown {
-				if call, ok := af.(*ssa.Call); ok && calleeName(&call.Call) == pkgAffinity+".ReplaceNodeNameNodeAffinity" && len(call.Call.Args) == 2 && nameOf(isNode)(call.Call.Args[1]) {
+			nn, nset := s.get("Spec", "NodeName")
+			af, aset := s.get("Spec", "Affinity")
+			pinOK := nset && sim.nameOf(s, nn, c.node)
+			if !pinOK && aset {
+				if call, ok := af.v.(*ssa.Call); ok && calleeName(&call.Call) == pkgAffinity+".ReplaceNodeNameNodeAffinity" && len(call.Call.Args) == 2 && sim.nameOf(s, fval{call.Call.Args[1], af.fr}, c.node) {
 					pinOK = true
 				}
 			}
 			if !pinOK {
-				fail("node pin", p, "Spec.NodeName is "+describe(nn)+" and Spec.Affinity is "+describe(af))
+				fail("node pin", s, "Spec.NodeName is "+describe(nn, nset)+" and Spec.Affinity is "+describe(af, aset))
 			}
 			// node hash
 			results["node hash annotation"].nonTriv = true
-			var hc *ssa.Call
+			var hc fval
 			empty := false
 			verdicts := map[bool]bool{}
-			for _, f := range p.Facts {
+			isHashCall := func(v ssa.Value, fr *frame) (fval, bool) {
+				sim.use(s)
+				x := F.resolve(fval{v, fr})
+				call, isCall := x.v.(*ssa.Call)
+				if isCall && hashFn != nil && staticCallee(&call.Call) == hashFn {
+					return x, true
+				}
+				return fval{}, false
+			}
+			for _, ff := range s.facts {
+				f := ff.f
 				bo, isB := f.V.(*ssa.BinOp)
 				if !isB {
 					continue
 				}
 				for _, pr := range [][2]ssa.Value{{bo.X, bo.Y}, {bo.Y, bo.X}} {
-					// hash == "" / hash != ""
-					if call, isCall := pr[0].(*ssa.Call); isCall && hashFn != nil && staticCallee(&call.Call) == hashFn {
-						if s, isC := constString(pr[1]); isC && s == "" && (bo.Op == token.EQL || bo.Op == token.NEQ) {
-							hc, empty = call, f.Pol
+					if x, ok := isHashCall(pr[0], ff.fr); ok {
+						if str, isC := constString(pr[1]); isC && str == "" && (bo.Op == token.EQL || bo.Op == token.NEQ) {
+							hc, empty = x, f.Pol
 							verdicts[f.Pol] = true
 						}
 					}
-					// len(hash) compared with 0: the normalised key is (0<len(h)) or (len(h)==0)
 					if ln, isLen := isBuiltinCall(pr[0], "len"); isLen {
-						call, isCall := ln.Call.Args[0].(*ssa.Call)
+						x, ok := isHashCall(ln.Call.Args[0], ff.fr)
 						z, isZ := constInt(pr[1])
-						if isCall && isZ && z == 0 && hashFn != nil && staticCallee(&call.Call) == hashFn {
+						if ok && isZ && z == 0 {
 							switch {
 							case strings.HasPrefix(f.Key, "(c:0<"):
-								hc, empty = call, !f.Pol
+								hc, empty = x, !f.Pol
 								verdicts[!f.Pol] = true
 							case strings.Contains(f.Key, "=="):
-								hc, empty = call, f.Pol
+								hc, empty = x, f.Pol
 								verdicts[f.Pol] = true
 							}
 						}
 					}
 				}
 			}
-			hv := st.entry(c.md5NodeKey, "ObjectMeta", "Annotations")
+			hv, hset := s.entry(c.md5NodeKey, "ObjectMeta", "Annotations")
 			switch {
 			case verdicts[true] && verdicts[false]:
 				// contradictory emptiness facts (hash == "" and len(hash) > 0): infeasible path
-			case hc == nil:
-				fail("node hash annotation", p, "the node-annotation hash is not computed and tested for emptiness")
+			case hc.v == nil:
+				fail("node hash annotation", s, "the node-annotation hash is not computed and tested for emptiness")
 			case empty:
-				if hv != nil {
-					fail("node hash annotation", p, "annotation "+c.md5NodeKey+" is written although the hash is empty ("+describe(hv)+")")
+				if hset {
+					fail("node hash annotation", s, "annotation "+c.md5NodeKey+" is written although the hash is empty ("+describe(hv, hset)+")")
 				}
 			default:
-				argsOK := len(hc.Call.Args) == 3 && namespaceOf(isRS)(hc.Call.Args[0]) && isEDSName(hc.Call.Args[1]) && annotationsOf(isNode)(hc.Call.Args[2])
-				if hv != ssa.Value(hc) || !argsOK {
-					fail("node hash annotation", p, fmt.Sprintf("annotation %s is %s; hash arguments (replicaset.Namespace, eds-name label, node annotations) ok=%v", c.md5NodeKey, describe(hv), argsOK))
+				call := hc.v.(*ssa.Call)
+				argsOK := len(call.Call.Args) == 3 && sim.namespaceOf(s, fval{call.Call.Args[0], hc.fr}, c.rs) && sim.edsName(s, fval{call.Call.Args[1], hc.fr}) && sim.annotationsOf(s, fval{call.Call.Args[2], hc.fr}, c.node)
+				same := false
+				if hset {
+					sim.use(s)
+					hvr := F.resolve(hv)
+					same = hvr.v == hc.v && hvr.fr == hc.fr
+				}
+				if !same || !argsOK {
+					fail("node hash annotation", s, fmt.Sprintf("annotation %s is %s; hash arguments (replicaset.Namespace, eds-name label, node annotations) ok=%v", c.md5NodeKey, describe(hv, hset), argsOK))
 				}
 			}
 		}
 		if schemeSet {
 			results["owner reference"].nonTriv = true
-			if st.ownerRef != 1 {
-				fail("owner reference", p, "SetControllerReference(replicaset, pod, scheme) is not called on the returned pod")
+			if s.ownerRef != 1 {
+				fail("owner reference", s, "SetControllerReference(replicaset, pod, scheme) is not called on the returned pod")
+			}
+		}
+	}
+	if len(finals) == 0 {
+		for _, it := range items[1:] {
+			if results[it].ok {
+				results[it].ok, results[it].why = false, "no path of the constructor returns a locally built pod"
 			}
 		}
 	}
@@ -1036,128 +1303,9 @@ func c10RebuiltList(r *Run, fn *ssa.Function, k *keyer, L *ssa.Phi, aff *ssa.Par
 			}
 		}
 
-		isMF := func(addr ssa.Value) bool {
-			fa, ok := addr.(*ssa.FieldAddr)
-			return ok && fieldName(fa) == "MatchFields" && fa.X == newTerm
-		}
-		isSetVal := func(v ssa.Value) bool {
-			if isReqList(v) {
-				return true
-			}
-			if ap2, ok := isBuiltinCall(v, "append"); ok && len(ap2.Call.Args) == 2 {
-				base, isL := ap2.Call.Args[0].(*ssa.UnOp)
-				return isL && base.Op == token.MUL && isMF(base.X) && isReqList(ap2.Call.Args[1])
-			}
-			return false
-		}
-		// last store to newTerm.MatchFields in block b before instruction `before` (nil: whole block)
-		lastMF := func(b *ssa.BasicBlock, before ssa.Instruction) *ssa.Store {
-			var last *ssa.Store
-			for _, in := range b.Instrs {
-				if in == before {
-					break
-				}
-				if st, ok := in.(*ssa.Store); ok && isMF(st.Addr) {
-					last = st
-				}
-			}
-			return last
-		}
-		replaceStoreIn := func(b *ssa.BasicBlock) bool {
-			for _, in := range b.Instrs {
-				st, ok := in.(*ssa.Store)
-				if !ok {
-					continue
-				}
-				if ia, ok := st.Addr.(*ssa.IndexAddr); ok {
-					if u, ok := ia.X.(*ssa.UnOp); ok && u.Op == token.MUL && isMF(u.X) && isReq(st.Val) {
-						return true
-					}
-				}
-			}
-			return false
-		}
-		// element stores into newTerm.MatchFields anywhere must store the requirement
-		for _, b := range fn.Blocks {
-			for _, in := range b.Instrs {
-				st, ok := in.(*ssa.Store)
-				if !ok {
-					continue
-				}
-				if ia, ok := st.Addr.(*ssa.IndexAddr); ok {
-					if u, ok := ia.X.(*ssa.UnOp); ok && u.Op == token.MUL && isMF(u.X) && !isReq(st.Val) {
-						okTerm, whyTerm = false, "an element of the rebuilt term's MatchFields is overwritten with something other than the requirement"
-					}
-				}
-			}
-		}
-		if st := lastMF(A, load); st != nil {
-			if !isSetVal(st.Val) {
-				okTerm, whyTerm = false, "MatchFields is reassigned without the requirement just before the append"
-			}
-			continue
-		}
-		for _, q := range A.Preds {
-			if st := lastMF(q, nil); st != nil {
-				if !isSetVal(st.Val) {
-					okTerm, whyTerm = false, fmt.Sprintf("block %d reassigns MatchFields without the requirement before the append", q.Index)
-				}
-				continue
-			}
-			// edge taken under a found-flag that is set only where an element is replaced by the requirement?
-			okEdge := false
-			flagWhy := ""
-			if iff, ok := q.Instrs[len(q.Instrs)-1].(*ssa.If); ok && len(q.Succs) == 2 && q.Succs[0] != q.Succs[1] {
-				cond := iff.Cond
-				pol := q.Succs[0] == A
-				if u, ok := cond.(*ssa.UnOp); ok && u.Op == token.NOT {
-					cond, pol = u.X, !pol
-				}
-				if ph, ok := cond.(*ssa.Phi); ok && pol {
-					okFlag := true
-					nTrue := 0
-					carried := enclosingLoopHeaders(fn, A)
-					seen := map[*ssa.Phi]bool{}
-					var walk func(ph *ssa.Phi)
-					walk = func(ph *ssa.Phi) {
-						if seen[ph] {
-							return
-						}
-						seen[ph] = true
-						if carried[ph.Block()] {
-							// the flag lives across iterations of a loop that encloses the append: its value at the
-							// top of an iteration is unknown (true may stem from an earlier term)
-							okFlag = false
-							flagWhy = "the flag guarding the append is carried across iterations of the term loop (set for an earlier term, it skips the requirement for a later one)"
-							return
-						}
-						for i, e := range ph.Edges {
-							if bv, isC := constBool(e); isC {
-								if bv {
-									nTrue++
-									if !replaceStoreIn(ph.Block().Preds[i]) {
-										okFlag = false
-									}
-								}
-								continue
-							}
-							if inner, isPhi := e.(*ssa.Phi); isPhi {
-								walk(inner)
-								continue
-							}
-							okFlag = false
-						}
-					}
-					walk(ph)
-					okEdge = okFlag && nTrue > 0
-				}
-			}
-			if !okEdge {
-				okTerm, whyTerm = false, fmt.Sprintf("the append at %s is reached from block %d without the requirement having been set, appended or (under a flag set only where it is) replaced", r.Prog.Pos(ap.Pos()), q.Index)
-				if flagWhy != "" {
-					whyTerm = fmt.Sprintf("the append at %s: %s", r.Prog.Pos(ap.Pos()), flagWhy)
-				}
-			}
+		pin := &c10Pin{prog: r.Prog, fn: fn, term: newTerm, isReq: isReq}
+		if ok, why := pin.pinnedAt(A, load, 0); !ok {
+			okTerm, whyTerm = false, fmt.Sprintf("the append at %s: %s", r.Prog.Pos(ap.Pos()), why)
 		}
 	}
 	r.Check("C10.R2", cLoop, pos, sf, nLoop, okLoop, whyLoop)
@@ -1318,18 +1466,25 @@ func c10HashChainPod(r *Run, rule string, withStamp bool) {
 	// constructor write
 	n := 0
 	okW, whyW := true, ""
-	for _, b := range ctor.Blocks {
-		for _, in := range b.Instrs {
-			mu, ok := in.(*ssa.MapUpdate)
-			if !ok {
-				continue
-			}
-			if s, isC := constString(mu.Key); !isC || s != c.md5Key {
-				continue
-			}
-			n++
-			if !loadOfPath(isParam(c.rs), "Spec", "TemplateGeneration")(mu.Value) {
-				okW, whyW = false, "the template-hash annotation is written from "+mu.Value.String()
+	// in the constructor or in a helper it calls (R1 decides that the write reaches the returned pod with
+	// the constructor's own replica set on every path)
+	for _, f := range sortedFuncs(r.Prog.reachableFuncs(ctor)) {
+		for _, b := range f.Blocks {
+			for _, in := range b.Instrs {
+				mu, ok := in.(*ssa.MapUpdate)
+				if !ok {
+					continue
+				}
+				if s, isC := constString(mu.Key); !isC || s != c.md5Key {
+					continue
+				}
+				n++
+				if !loadOfPath(func(x ssa.Value) bool {
+					_, isPar := x.(*ssa.Parameter)
+					return isPar && isPtrToNamed(x.Type(), pkgAPI, "ExtendedDaemonSetReplicaSet")
+				}, "Spec", "TemplateGeneration")(mu.Value) {
+					okW, whyW = false, "the template-hash annotation is written from "+mu.Value.String()
+				}
 			}
 		}
 	}
@@ -2405,11 +2560,37 @@ func c10IsDigest(v ssa.Value) bool {
 	return true
 }
 
-func c10Determinism(r *Run, fn *ssa.Function) {
-	sf := shortFunc(fn)
-	pos := r.Prog.Pos(fn.Pos())
-	const cFeed = "digest fed outside map iteration"
-	const cSort = "map-collected data sorted before the digest"
+// c10DetSummary is what a function contributes to hash determinism when called from a hash function.
+type c10DetSummary struct {
+	feedsParam map[int]bool // parameters whose data reaches a digest inside the function (or its callees)
+	retOrdered map[int]bool // results that are slices filled in map-iteration order and not sorted before the return
+	feedBad    string       // a digest feed inside a range-over-map loop
+	sortBad    string       // map-ordered data reaching a digest unsorted
+	nFeeds     int
+}
+
+type c10Det struct {
+	r    *Run
+	memo map[*ssa.Function]*c10DetSummary
+}
+
+func c10IsSortCall(cc *ssa.CallCommon) bool {
+	n := calleeName(cc)
+	for _, p := range []string{"sort.Strings", "sort.Slice", "sort.SliceStable", "sort.Sort", "sort.Stable", "slices.Sort"} {
+		if strings.HasPrefix(n, p) {
+			return true
+		}
+	}
+	return false
+}
+
+func (d *c10Det) summary(fn *ssa.Function, depth int) *c10DetSummary {
+	if s, ok := d.memo[fn]; ok {
+		return s
+	}
+	sum := &c10DetSummary{feedsParam: map[int]bool{}, retOrdered: map[int]bool{}}
+	d.memo[fn] = sum
+	r := d.r
 	mapHeader := map[*ssa.BasicBlock]bool{}
 	for _, b := range fn.Blocks {
 		for _, in := range b.Instrs {
@@ -2422,13 +2603,21 @@ func c10Determinism(r *Run, fn *ssa.Function) {
 			}
 		}
 	}
-	inMapLoop := func(b *ssa.BasicBlock) bool {
+	mapLoopOf := func(b *ssa.BasicBlock) *ssa.BasicBlock {
 		for h := range enclosingLoopHeaders(fn, b) {
 			if mapHeader[h] {
-				return true
+				return h
 			}
 		}
-		return false
+		return nil
+	}
+	inMapLoop := func(b *ssa.BasicBlock) bool { return mapLoopOf(b) != nil }
+	sub := func(ci ssa.CallInstruction) *c10DetSummary {
+		cal := staticCallee(ci.Common())
+		if cal == nil || !r.Prog.IsRuleSite(cal) || depth >= 3 || cal == fn {
+			return nil
+		}
+		return d.summary(cal, depth+1)
 	}
 	type feed struct {
 		call ssa.CallInstruction
@@ -2461,53 +2650,90 @@ func c10Determinism(r *Run, fn *ssa.Function) {
 		}
 		if isFeed {
 			feeds = append(feeds, feed{ci, data})
-		}
-	}
-	if len(feeds) == 0 {
-		r.Undecided("C10.R6", cFeed, pos, sf, "no crypto digest is fed in this function")
-		r.Undecided("C10.R6", cSort, pos, sf, "no crypto digest is fed in this function")
-		return
-	}
-	okFeed, whyFeed := true, ""
-	okSort, whySort := true, ""
-	sortCalls := func() []ssa.CallInstruction {
-		var out []ssa.CallInstruction
-		for _, ci := range callsIn(fn) {
-			switch calleeName(ci.Common()) {
-			case "sort.Strings", "sort.Slice", "sort.SliceStable", "sort.Sort", "sort.Stable", "slices.Sort", "slices.SortFunc", "slices.SortStableFunc":
-				out = append(out, ci)
-			}
-		}
-		return out
-	}()
-	for _, f := range feeds {
-		fb := f.call.Block()
-		fpos := r.Prog.Pos(f.call.Pos())
-		if inMapLoop(fb) {
-			okFeed, whyFeed = false, "the digest is fed at "+fpos+" inside a range over a map: the hash depends on Go's map iteration order, so an unchanged object hashes differently from one call to the next"
 			continue
 		}
-		// accumulations in map order that reach the fed data
-		var accs []*ssa.Call
+		if cs := sub(ci); cs != nil {
+			if cs.feedBad != "" && sum.feedBad == "" {
+				sum.feedBad = cs.feedBad
+			}
+			if cs.sortBad != "" && sum.sortBad == "" {
+				sum.sortBad = cs.sortBad
+			}
+			var fd []ssa.Value
+			for i := range cs.feedsParam {
+				if i < len(cc.Args) {
+					fd = append(fd, cc.Args[i])
+				}
+			}
+			if len(fd) > 0 {
+				feeds = append(feeds, feed{ci, fd})
+			}
+		}
+	}
+	sum.nFeeds = len(feeds)
+	var sortCalls []ssa.CallInstruction
+	for _, ci := range callsIn(fn) {
+		if c10IsSortCall(ci.Common()) {
+			sortCalls = append(sortCalls, ci)
+		}
+	}
+	// accumulation points, in map-iteration order, in the backward closure of a value
+	type acc struct {
+		in   ssa.Instruction // an append inside a map loop, or a call whose result is map-ordered
+		val  ssa.Value
+		loop *ssa.BasicBlock // map loop header for local appends (nil for calls)
+	}
+	carried := func(v ssa.Value, h *ssa.BasicBlock) bool {
+		loop := loopBlocks(h)
+		return dependsOnV(v, func(x ssa.Value) bool {
+			if ph, ok := x.(*ssa.Phi); ok && ph.Block() == h {
+				return true
+			}
+			if u, ok := x.(*ssa.UnOp); ok && u.Op == token.MUL {
+				if a, ok := u.X.(*ssa.Alloc); ok {
+					for _, st := range cellStores(a) {
+						if loop[st.Block()] {
+							return true
+						}
+					}
+				}
+			}
+			return false
+		})
+	}
+	collect := func(data []ssa.Value, at string) (accs []acc, bad string) {
 		allocs := map[*ssa.Alloc]bool{}
-		for _, d := range f.data {
-			dependsOnV(d, func(x ssa.Value) bool {
+		for _, dv := range data {
+			dependsOnV(dv, func(x ssa.Value) bool {
 				switch y := x.(type) {
 				case *ssa.Alloc:
 					allocs[y] = true
 				case *ssa.Call:
-					if _, isAp := isBuiltinCall(y, "append"); isAp && inMapLoop(y.Block()) {
-						accs = append(accs, y)
+					if _, isAp := isBuiltinCall(y, "append"); isAp {
+						if h := mapLoopOf(y.Block()); h != nil {
+							accs = append(accs, acc{in: y, val: y, loop: h})
+						}
+						return false
+					}
+					if cs := sub(y); cs != nil && cs.retOrdered[0] {
+						accs = append(accs, acc{in: y, val: y})
+					}
+				case *ssa.Extract:
+					if call, ok := y.Tuple.(*ssa.Call); ok {
+						if cs := sub(call); cs != nil && cs.retOrdered[y.Index] {
+							accs = append(accs, acc{in: call, val: y})
+						}
 					}
 				case *ssa.BinOp:
-					if bt, isB := y.Type().Underlying().(*types.Basic); isB && bt.Info()&types.IsString != 0 && y.Op == token.ADD && inMapLoop(y.Block()) {
-						okSort, whySort = false, "a string concatenated inside a range over a map ("+r.Prog.Pos(y.Pos())+") is fed to the digest at "+fpos
+					if bt, isB := y.Type().Underlying().(*types.Basic); isB && bt.Info()&types.IsString != 0 && y.Op == token.ADD {
+						if h := mapLoopOf(y.Block()); h != nil && carried(y, h) {
+							bad = "a string accumulated across the iterations of a range over a map (" + r.Prog.Pos(y.Pos()) + ") reaches the digest at " + at
+						}
 					}
 				}
 				return false
 			})
 		}
-		// buffers / builders written inside a map loop and read for the digest
 		for _, ci := range callsIn(fn) {
 			if !inMapLoop(ci.Block()) {
 				continue
@@ -2519,36 +2745,310 @@ func c10Determinism(r *Run, fn *ssa.Function) {
 			for _, a := range ci.Common().Args {
 				root, _ := deepPath(a)
 				if al, ok := root.(*ssa.Alloc); ok && allocs[al] {
-					okSort, whySort = false, "a buffer written inside a range over a map ("+r.Prog.Pos(ci.Pos())+") is fed to the digest at "+fpos
+					bad = "a buffer written inside a range over a map (" + r.Prog.Pos(ci.Pos()) + ") reaches the digest at " + at
 				}
 			}
 		}
-		for _, acc := range accs {
-			sorted := false
-			for _, sc := range sortCalls {
-				if inMapLoop(sc.Block()) || !sc.Block().Dominates(fb) {
+		return accs, bad
+	}
+	sortedBefore := func(a acc, use *ssa.BasicBlock) bool {
+		for _, sc := range sortCalls {
+			sb := sc.Block()
+			if inMapLoop(sb) || !sb.Dominates(use) {
+				continue
+			}
+			if a.loop != nil {
+				if !a.loop.Dominates(sb) || loopBlocks(a.loop)[sb] {
 					continue
 				}
-				after := false
-				for h := range enclosingLoopHeaders(fn, acc.Block()) {
-					if mapHeader[h] && h.Dominates(sc.Block()) && !loopBlocks(h)[sc.Block()] {
-						after = true
-					}
-				}
-				if !after {
-					continue
-				}
-				for _, a := range sc.Common().Args {
-					if dependsOnV(a, func(x ssa.Value) bool { return x == ssa.Value(acc) }) {
-						sorted = true
-					}
+			} else if !a.in.Block().Dominates(sb) {
+				continue
+			}
+			for _, arg := range sc.Common().Args {
+				if dependsOnV(arg, func(x ssa.Value) bool { return x == a.val }) {
+					return true
 				}
 			}
-			if !sorted {
-				okSort, whySort = false, "the slice appended to inside a range over a map ("+r.Prog.Pos(acc.Pos())+") reaches the digest at "+fpos+" without a sort call that dominates the feed: the hash depends on map iteration order"
+		}
+		return false
+	}
+	for _, f := range feeds {
+		fb := f.call.Block()
+		fpos := r.Prog.Pos(f.call.Pos())
+		if inMapLoop(fb) {
+			if sum.feedBad == "" {
+				sum.feedBad = "the digest is fed at " + fpos + " (" + shortFunc(fn) + ") inside a range over a map: the hash depends on Go's map iteration order, so an unchanged object hashes differently from one call to the next"
+			}
+			continue
+		}
+		accs, bad := collect(f.data, fpos)
+		if bad != "" && sum.sortBad == "" {
+			sum.sortBad = bad
+		}
+		for _, a := range accs {
+			if !sortedBefore(a, fb) && sum.sortBad == "" {
+				sum.sortBad = "the slice filled inside a range over a map (" + r.Prog.Pos(a.in.Pos()) + ") reaches the digest at " + fpos + " without a sort call in between that dominates the feed: the hash depends on map iteration order"
+			}
+		}
+		for i, p := range fn.Params {
+			for _, dv := range f.data {
+				if dependsOnV(dv, isParam(p)) {
+					sum.feedsParam[i] = true
+				}
 			}
 		}
 	}
-	r.Check("C10.R6", cFeed, pos, sf, "no Write / io.Copy / Fprint* / crypto Sum call feeding the digest lies inside a range-over-map loop", okFeed, whyFeed)
-	r.Check("C10.R6", cSort, pos, sf, "data accumulated while ranging over a map reaches the digest only through a slice that a sort call, dominating the feed, has ordered (json.Marshal output is ordered by encoding/json)", okSort, whySort)
+	// results in map-iteration order
+	for _, b := range fn.Blocks {
+		ret := returnOf(b)
+		if ret == nil {
+			continue
+		}
+		for i, res := range ret.Results {
+			if _, isSlice := res.Type().Underlying().(*types.Slice); !isSlice {
+				continue
+			}
+			accs, _ := collect([]ssa.Value{res}, "")
+			for _, a := range accs {
+				if !sortedBefore(a, b) {
+					sum.retOrdered[i] = true
+				}
+			}
+		}
+	}
+	return sum
+}
+
+func c10Determinism(r *Run, fn *ssa.Function) {
+	sf := shortFunc(fn)
+	pos := r.Prog.Pos(fn.Pos())
+	const cFeed = "digest fed outside map iteration"
+	const cSort = "map-collected data sorted before the digest"
+	d := &c10Det{r: r, memo: map[*ssa.Function]*c10DetSummary{}}
+	sum := d.summary(fn, 0)
+	if sum.nFeeds == 0 {
+		r.Undecided("C10.R6", cFeed, pos, sf, "no crypto digest is fed in this function or in the repository functions it calls")
+		r.Undecided("C10.R6", cSort, pos, sf, "no crypto digest is fed in this function or in the repository functions it calls")
+		return
+	}
+	r.Check("C10.R6", cFeed, pos, sf, "no Write / io.Copy / Fprint* / crypto Sum call feeding the digest (here or in a called repository function) lies inside a range-over-map loop", sum.feedBad == "", sum.feedBad)
+	r.Check("C10.R6", cSort, pos, sf, "data accumulated while ranging over a map reaches the digest only through a slice that a sort call, dominating the feed, has ordered (json.Marshal output is ordered by encoding/json)", sum.sortBad == "", sum.sortBad)
+}
+
+// c10Pin decides whether, at a program point, the MatchFields of one node-selector term (a pointer
+// value of fn) are known to contain the node-name requirement: they were just set to [requirement],
+// had it appended, had an element replaced by it under a flag that is set only there, or a
+// repository helper that does one of these on every return path was called on the term.
+type c10Pin struct {
+	prog  *Prog
+	fn    *ssa.Function
+	term  ssa.Value
+	isReq func(ssa.Value) bool
+}
+
+func (c *c10Pin) isMF(addr ssa.Value) bool {
+	fa, ok := addr.(*ssa.FieldAddr)
+	return ok && fieldName(fa) == "MatchFields" && fa.X == c.term
+}
+
+func (c *c10Pin) isReqList(v ssa.Value) bool {
+	arr := sliceLit(v)
+	if arr == nil {
+		return false
+	}
+	el, ok := litElems(arr)
+	return ok && len(el) == 1 && el[0].val != nil && c.isReq(el[0].val)
+}
+
+func (c *c10Pin) isSetVal(v ssa.Value) bool {
+	if c.isReqList(v) {
+		return true
+	}
+	if ap2, ok := isBuiltinCall(v, "append"); ok && len(ap2.Call.Args) == 2 {
+		base, isL := ap2.Call.Args[0].(*ssa.UnOp)
+		return isL && base.Op == token.MUL && c.isMF(base.X) && c.isReqList(ap2.Call.Args[1])
+	}
+	return false
+}
+
+// lastEvent returns the last instruction of block b before `before` (nil: whole block) that
+// determines the term's MatchFields: a store to the field, or a call of a repository helper on the
+// term. set=true if after it the requirement is known to be present.
+func (c *c10Pin) lastEvent(b *ssa.BasicBlock, before ssa.Instruction, depth int) (found, set bool, why string) {
+	for _, in := range b.Instrs {
+		if in == before {
+			break
+		}
+		switch x := in.(type) {
+		case *ssa.Store:
+			if c.isMF(x.Addr) {
+				found, set = true, c.isSetVal(x.Val)
+				if !set {
+					why = "MatchFields is reassigned without the requirement"
+				}
+			}
+		case *ssa.Call:
+			cal := staticCallee(&x.Call)
+			if cal == nil || !c.prog.IsRuleSite(cal) {
+				continue
+			}
+			ti, ri := -1, -1
+			for i, a := range x.Call.Args {
+				if a == c.term {
+					ti = i
+				} else if c.isReq(a) {
+					ri = i
+				}
+			}
+			if ti < 0 {
+				continue
+			}
+			found = true
+			set, why = false, shortFunc(cal)+" is called on the term without the requirement"
+			if ri >= 0 && depth < 2 {
+				set, why = c10HelperPins(c.prog, cal, ti, ri, depth+1)
+				if !set {
+					why = shortFunc(cal) + ": " + why
+				}
+			}
+		}
+	}
+	return found, set, why
+}
+
+func (c *c10Pin) replaceStoreIn(b *ssa.BasicBlock) bool {
+	for _, in := range b.Instrs {
+		st, ok := in.(*ssa.Store)
+		if !ok {
+			continue
+		}
+		if ia, ok := st.Addr.(*ssa.IndexAddr); ok {
+			if u, ok := ia.X.(*ssa.UnOp); ok && u.Op == token.MUL && c.isMF(u.X) && c.isReq(st.Val) {
+				return true
+			}
+		}
+	}
+	return false
+}
+
+func (c *c10Pin) pinnedAt(A *ssa.BasicBlock, before ssa.Instruction, depth int) (bool, string) {
+	fn := c.fn
+	// element stores into term.MatchFields anywhere must store the requirement
+	for _, b := range fn.Blocks {
+		for _, in := range b.Instrs {
+			st, ok := in.(*ssa.Store)
+			if !ok {
+				continue
+			}
+			if ia, ok := st.Addr.(*ssa.IndexAddr); ok {
+				if u, ok := ia.X.(*ssa.UnOp); ok && u.Op == token.MUL && c.isMF(u.X) && !c.isReq(st.Val) {
+					return false, "an element of the rebuilt term's MatchFields is overwritten with something other than the requirement"
+				}
+			}
+		}
+	}
+	if found, set, why := c.lastEvent(A, before, depth); found {
+		return set, why
+	}
+	if len(A.Preds) == 0 {
+		return false, "the requirement is never set on the term"
+	}
+	for _, q := range A.Preds {
+		if found, set, why := c.lastEvent(q, nil, depth); found {
+			if !set {
+				return false, fmt.Sprintf("block %d: %s", q.Index, why)
+			}
+			continue
+		}
+		// edge taken under a found-flag that is set only where an element is replaced by the requirement?
+		okEdge := false
+		flagWhy := ""
+		if iff, ok := q.Instrs[len(q.Instrs)-1].(*ssa.If); ok && len(q.Succs) == 2 && q.Succs[0] != q.Succs[1] {
+			cond := iff.Cond
+			pol := q.Succs[0] == A
+			if u, ok := cond.(*ssa.UnOp); ok && u.Op == token.NOT {
+				cond, pol = u.X, !pol
+			}
+			if ph, ok := cond.(*ssa.Phi); ok && pol {
+				okFlag := true
+				nTrue := 0
+				carried := enclosingLoopHeaders(fn, A)
+				seen := map[*ssa.Phi]bool{}
+				var walk func(ph *ssa.Phi)
+				walk = func(ph *ssa.Phi) {
+					if seen[ph] {
+						return
+					}
+					seen[ph] = true
+					if carried[ph.Block()] {
+						// the flag lives across iterations of a loop that encloses this point: its value at the
+						// top of an iteration is unknown (true may stem from an earlier term)
+						okFlag = false
+						flagWhy = "the flag guarding the append is carried across iterations of the term loop (set for an earlier term, it skips the requirement for a later one)"
+						return
+					}
+					for i, e := range ph.Edges {
+						if bv, isC := constBool(e); isC {
+							if bv {
+								nTrue++
+								if !c.replaceStoreIn(ph.Block().Preds[i]) {
+									okFlag = false
+								}
+							}
+							continue
+						}
+						if inner, isPhi := e.(*ssa.Phi); isPhi {
+							walk(inner)
+							continue
+						}
+						okFlag = false
+					}
+				}
+				walk(ph)
+				okEdge = okFlag && nTrue > 0
+			}
+		}
+		if !okEdge {
+			if flagWhy != "" {
+				return false, flagWhy
+			}
+			return false, fmt.Sprintf("reached from block %d without the requirement having been set, appended or (under a flag set only where it is) replaced", q.Index)
+		}
+	}
+	return true, ""
+}
+
+// c10HelperPins: on every return path of the helper the MatchFields of its term parameter contain
+// its requirement parameter.
+func c10HelperPins(prog *Prog, fn *ssa.Function, ti, ri int, depth int) (bool, string) {
+	if ti >= len(fn.Params) || ri >= len(fn.Params) {
+		return false, "unexpected signature"
+	}
+	term, req := fn.Params[ti], fn.Params[ri]
+	isReq := func(v ssa.Value) bool {
+		if v == ssa.Value(req) {
+			return true
+		}
+		if u, ok := v.(*ssa.UnOp); ok && u.Op == token.MUL {
+			if a, ok := u.X.(*ssa.Alloc); ok {
+				if st, ro := readOnlyCopy(a); ro && st.Val == ssa.Value(req) {
+					return true
+				}
+			}
+		}
+		return false
+	}
+	pin := &c10Pin{prog: prog, fn: fn, term: term, isReq: isReq}
+	n := 0
+	for _, b := range fn.Blocks {
+		ret := returnOf(b)
+		if ret == nil {
+			continue
+		}
+		n++
+		if ok, why := pin.pinnedAt(b, ret, depth); !ok {
+			return false, fmt.Sprintf("return at block %d: %s", b.Index, why)
+		}
+	}
+	return n > 0, "no return"
 }
